@@ -71,14 +71,16 @@ def ensure_gosum():
         pass
 
 
-def build(pkg, race=False):
+def build(pkg, race=False, fuzz=False):
     """go test -c for one harness package against /repo's current working tree."""
     ensure_gosum()
     os.makedirs(os.path.join(WORK, "bin"), exist_ok=True)
-    out = os.path.join(WORK, "bin", pkg + (".race" if race else "") + ".test")
+    out = os.path.join(WORK, "bin", pkg + (".race" if race else "") + (".fuzz" if fuzz else "") + ".test")
     cmd = ["go", "test", "-c", "-tags", "verif", "-o", out]
     if race:
         cmd += ["-race", "-gcflags=all=-d=checkptr=0"]
+    if fuzz:
+        cmd += ["-fuzz=Fuzz"]  # coverage instrumentation for the native fuzzer
     cmd += ["./" + pkg]
     t0 = time.time()
     p = subprocess.run(cmd, cwd=HARNESS, env=ENV, stdout=subprocess.PIPE, stderr=subprocess.STDOUT, text=True)
@@ -140,7 +142,7 @@ def parse_race_logs(cwd):
 def run_one(prop, tier, run, idx, shard, nshards, base_seed, scratch, replay=None):
     """Run one test-binary invocation; returns dict(result=ok|fail|infra, ...)."""
     pkg = run["pkg"]
-    binp = build(pkg, race=run.get("race", False))
+    binp = build(pkg, race=run.get("race", False), fuzz=bool(run.get("fuzz")) and tier == "thorough" and not replay)
     if binp is None:
         return {"result": "infra", "why": "build failed"}
     cwd = os.path.join(scratch, "run%d_%d" % (idx, shard))
@@ -437,8 +439,8 @@ def main():
         for shard in range(nshards):
             jobs.append((idx, run, shard, nshards))
     # build everything first (sequentially; cached)
-    for pkg, race in sorted({(j[1]["pkg"], bool(j[1].get("race"))) for j in jobs}):
-        if build(pkg, race) is None:
+    for pkg, race, fz in sorted({(j[1]["pkg"], bool(j[1].get("race")), bool(j[1].get("fuzz")) and tier == "thorough") for j in jobs}):
+        if build(pkg, race, fz) is None:
             write_evidence(prop, tier, base_seed, cfg["level"], [], time.time() - t0, 0,
                            {"inconclusive": "build failed"})
             return 2
